@@ -240,7 +240,10 @@ def check_table(rep: Report, ctx: Ctx, rule: str, table: dict,
     why)]; ``may`` == "*" accepts any further condition."""
     for fn in funcs:
         fi = ctx.func(fn)
-        effs = effects(ctx, fi)
+        # calls named by an obligation count wherever they occur (also as
+        # the value of an assignment), other calls at statement level only
+        effs = effects(ctx, fi, names={r[2] for r in table[fn]
+                                       if r[1] == "call" and r[2]})
         for what, kind, name, recv, args, must, may, why in table[fn]:
             expect(rep, rule, fi, effs, f"{fi.name}: {what}", kind=kind,
                    name=name, recv=abbr(recv),
